@@ -132,11 +132,20 @@ func init() {
 				if tier == "thorough" {
 					nt = 60
 				}
+				pool := ts
 				if eco == "golang" {
 					// all three pseudo-version forms are always in the set
 					ts = pick(eco, ts, nt)
 				} else {
 					ts = thin(ts, nt)
+				}
+				// always present: a numeric identifier above 2^31 and a hyphen-capable identifier next to it
+				added := 0
+				for _, t := range pool {
+					if added < 2 && (strings.HasSuffix(t, "-{D}{d}{d}{d}{d}{d}{d}{d}{d}{d}") || strings.HasSuffix(t, "-{i}{i}")) && !has(ts, t) {
+						ts = append(ts, t)
+						added++
+					}
 				}
 				for _, a := range ts {
 					for _, b := range ts {
@@ -153,10 +162,21 @@ func init() {
 				t := strings.Repeat("{[0-9A-Za-z.+\\-]}", l)
 				out = append(out, &Config{ID: fmt.Sprintf("C08/strict/semver/raw%d", l), Pkg: zzhPkg, Func: "C08Strict", Args: []ArgSpec{ArgStr("semver"), ArgTmpl(t)}})
 			}
+			// a numeric core followed by a free pre-release / build tail of 1-4 (thorough 5) characters
+			nt := 4
+			if tier == "thorough" {
+				nt = 5
+			}
+			for _, lead := range []string{"-", "+", "-{i}+", "-{d}."} {
+				for l := 1; l <= nt; l++ {
+					t := "{d}.{d}.{d}" + lead + strings.Repeat("{[0-9A-Za-z.+\\-]}", l)
+					out = append(out, &Config{ID: fmt.Sprintf("C08/strict/semver/tail/%s%d", lead, l), Pkg: zzhPkg, Func: "C08Strict", Args: []ArgSpec{ArgStr("semver"), ArgTmpl(t)}})
+				}
+			}
 			return out
 		},
 		Bounds: func(tier string) string {
-			return "pairs over the 'm' (quick, thinned to 24) / 'l' (thorough, thinned to 60) SemVer-family templates: 0-4 identifiers of 1-18 characters, build metadata optional; strictness: all strings of length <= 7 (quick) / 9 (thorough) over [0-9A-Za-z.+-]"
+			return "pairs over the 'm' (quick, thinned to 24) / 'l' (thorough, thinned to 60) SemVer-family templates: 0-4 identifiers of 1-18 characters, build metadata optional; strictness: all strings of length <= 7 (quick) / 9 (thorough) over [0-9A-Za-z.+-], and a numeric core followed by every pre-release / build tail of up to 4 / 5 characters over that alphabet"
 		},
 		Assume: []string{"golang.org/x/mod v0.41.0 semver.Compare/IsValid (source copy in /verif/harness/pkg/zzsemver) is the reference for SemVer 2.0.0 precedence"},
 	})
